@@ -124,8 +124,6 @@ end Ev
 
 /-! ## Numeric layer -/
 
-instance : NatCast Float := ⟨Float.ofNat⟩
-
 /-- `int(d)` for a non-negative number below 2^63 -/
 class TruncNat (α : Type) where
   toNat : α → Nat
